@@ -395,13 +395,64 @@ theorem receipt_matches_movement_partial (s t : Ledger) (op : Op) (r : Rcpt) (hw
       obtain ⟨hf1, _, _⟩ := debit_spec hw hd
       exact ⟨rfl, rfl, by simp only; rw [hf1.2.2.2.2.2.2.1]⟩
 
-/-- the full receipt statement (source debit and recipient credit for every receipt kind); the proved part
-is `receipt_matches_movement_partial` + `op_conserves`; missing: the explicit debit/credit equations for
-Transfer and Call when the sender is itself the recipient contract. -/
-def ReceiptMatchesMovementStatement : Prop :=
-  ∀ (s t : Ledger) (op : Op) (r : Rcpt), WF s → applyOp s op = .ok (t, some r) →
-    ∀ dest amt asset, (op = .tr dest amt asset ∨ op = .call dest amt asset) → s.ctx.head? ≠ some dest →
-      srcBalance t asset + amt = srcBalance s asset ∧ balance t dest asset = balance s dest asset + amt
+/-- **Transfer and Call receipts match the movement**: when the sender is not itself the recipient contract,
+the funding source (the sender contract's balance, or the free balance in a script) of the receipt's asset drops
+by exactly the receipt's amount and the recipient contract's balance rises by exactly that amount. (If the
+sender is the recipient the two movements cancel; `op_conserves` covers that case in aggregate.) -/
+theorem receipt_matches_movement (s t : Ledger) (op : Op) (r : Rcpt) (dest amt asset : Nat)
+    (h : applyOp s op = .ok (t, some r)) (hop : op = .tr dest amt asset ∨ op = .call dest amt asset)
+    (hne : s.ctx.head? ≠ some dest) :
+    r.amt = amt ∧ r.asset = asset ∧
+    srcOf s.ctx t asset + amt = srcOf s.ctx s asset ∧ balance t dest asset = balance s dest asset + amt := by
+  have core : ∀ (s1 s2 : Ledger), debit s asset amt = .ok s1 → balanceIncrease s1 dest asset amt = .ok s2 →
+      srcOf s.ctx s2 asset + amt = srcOf s.ctx s asset ∧ balance s2 dest asset = balance s dest asset + amt := by
+    intro s1 s2 hd hi
+    obtain ⟨d1, _, _, d4⟩ := debit_point hd
+    obtain ⟨i1, i2, _, _, i5⟩ := balanceIncrease_point hi
+    constructor
+    · -- the source is untouched by the credit
+      have : srcOf s.ctx s2 asset = srcOf s.ctx s1 asset := by
+        unfold srcOf
+        split
+        · rename_i c rest hctx
+          unfold balance
+          rw [i5 c asset (by intro ⟨e, _⟩; rw [hctx] at hne; simp [e] at hne)]
+        · rw [i2]
+      rw [this]; exact d1
+    · rw [i1]; unfold balance; rw [d4 dest asset hne]
+  rcases hop with rfl | rfl
+  · simp only [applyOp] at h
+    split at h
+    · cases h
+    · split at h
+      · cases h
+      · split at h
+        · cases h
+        · rename_i s1 hd
+          split at h
+          · cases h
+          · rename_i s2 hi
+            cases h
+            exact ⟨rfl, rfl, core s1 _ hd hi⟩
+  · simp only [applyOp] at h
+    split at h
+    · cases h
+    · split at h
+      · cases h
+      · rename_i s1 hd
+        split at h
+        · cases h
+        · split at h
+          · cases h
+          · rename_i s2 hi
+            cases h
+            obtain ⟨c1, c2⟩ := core s1 s2 hd hi
+            refine ⟨rfl, rfl, ?_, ?_⟩
+            · -- the frame push does not change balances
+              have : srcOf s.ctx { s2 with ctx := dest :: s2.ctx } asset = srcOf s.ctx s2 asset := by
+                unfold srcOf balance; split <;> rfl
+              rw [this]; exact c1
+            · exact c2
 
 /-! ### failure order: the model follows the order of the fallible steps in the Rust text -/
 
